@@ -205,8 +205,12 @@ def cases(c):
     for i in range(0 if quick else 3000):
         out.append({'form': 'axis', 'NFFT': int(rng.integers(1025, 4097)), 'cplx': int(rng.integers(0, 2)),
                     'fs': float(gen.pick(rng, fss)), 'fs2': float(gen.pick(rng, fss)), 'i': i})
-    for n in ([2, 3, 4, 5, 8, 9, 16, 17] + ([] if quick else [33, 64, 101])):
+    for n in ([2, 3, 4, 5, 8, 9, 16, 17, 1030, 2048, 2049] + ([] if quick else [33, 64, 101, 4096, 4099])):
         out.append({'form': 'helpers', 'n': n, 'directed': True})
+    # long grids through the class conversions too (implementations may switch algorithm with the length)
+    for NFFT in ((2048, 2050, 2051) if quick else (1026, 2048, 2050, 2051, 4096, 4097)):
+        for cplx in (0, 1):
+            out.append({'form': 'paths', 'cplx': cplx, 'NFFT': NFFT, 'vec': 'rand', 'pathset': [2, 1], 'long': True})
     for i in range(10 if quick else 4800):
         out.append({'form': 'arma2psd', 'NFFT': int(gen.pick(rng, [8, 9, 16, 33, 64, 65, 128])), 'cplx': int(rng.integers(0, 2)),
                     'la': int(rng.integers(1, 5)), 'lb': int(rng.integers(0, 4)), 'i': i})
